@@ -347,6 +347,17 @@ def proof_stage(run, prop_v, extra_closure=()):
     run.cov["discharged"] = len(names) if closed >= len(names) else closed
     run.cov["property_theorems"] = [n for n in coq_obligations([prop_v])[0]]
     run.cov["print_assumptions"] = {"closed_under_global_context": closed_ctx, "axioms": axioms}
+    if run.tier == "thorough" and not os.environ.get("VERIF_NO_COQCHK"):
+        mod = "Algo." + prop_v[len("theories/"):-2].replace("/", ".")
+        with Lock("coq"):
+            rcc, outc = sh("timeout 3000 coqchk -silent -o -Q theories Algo %s" % mod, cwd=COQ, timeout=3030)
+        m = re.search(r"\* Axioms:(.*?)\n\s*\n\* Constants", outc, re.S)
+        run.cov["coqchk"] = {"cmd": "coqchk -silent -o -Q theories Algo " + mod, "exit": rcc,
+                             "axioms": " ".join(m.group(1).split()) if m else outc[-600:]}
+        if rcc != 0:
+            run.cov["discharged"] = 0
+            run.broken = {"kind": "coqchk", "error": outc[-1500:]}
+            return False
     run.cov["trusted_base"] = [
         "Coq 8.16.1 kernel via coqc (vm_compute used; native_compute not used)",
         "axioms reported by Print Assumptions under the property theorems: %s" % (", ".join(axioms) if axioms else "none (Closed under the global context)"),
